@@ -37,6 +37,9 @@ where
 
     #[inline]
     fn process(&mut self, el: StreamElement<A::In>) -> Self::Output {
+        #[cfg(feature = "verif")]
+        let ts = crate::verif::now();
+        #[cfg(not(feature = "verif"))]
         let ts = Instant::now();
 
         let ret = match &self.w {
